@@ -920,3 +920,7 @@ for _p, _stage, _extra in (("C12", "c12", {}), ("C13", "c13", dict(abort_is_viol
 # C12 once more on a harness whose rand_core has its std feature (feature unification gives the crate the
 # same rand_core): generator errors may then be boxed std errors without a numeric code
 PLANS["C12"]["stages"].append(dict(name="c12-release-rngstd", kind="vh", stage="c12", profile="release", features="rngstd"))
+
+# the dudect flavour also for the checks whose subject the feature could plausibly touch (release build only)
+for _p, _stage in (("C02", "c02"), ("C03", "c03"), ("C16", "c16")):
+    PLANS[_p]["stages"].append(dict(name=f"{_stage}-release-dudect", kind="vh", stage=_stage, profile="release", features="dudect"))
